@@ -1318,6 +1318,9 @@ func c15Sweep(o Opts, cnt *Counters) (evals int, fails []Failure) {
 		}
 		w := c15Setup(cfg)
 		actor := (c / 4) % c15NKeys
+		if cfg.Auth {
+			actor = cfg.Manual[0] // authorised: the gate lets the tx through to the scan
+		}
 		hi := (c + 1) * chunk
 		if hi > total {
 			hi = total
